@@ -535,3 +535,8 @@ func init() {
 	addMutant(Mutant{Name: "c28-enum-number-unbounded", Property: "C28", File: "protogen/protogen.go",
 		Old: "\t\tif int64(enumDef.Value)+1 > math.MaxInt32 || int64(enumDef.Value)+1 < math.MinInt32 {", New: "\t\tif int64(enumDef.Value)+1 > math.MaxInt64-1 {", Expect: "genProtoEnum:value-number"})
 }
+
+func init() {
+	addMutant(Mutant{Name: "c19-leaflist-bool-asserted", Property: "C19", File: "ygot/render.go",
+		Old: "\t\treturn append(l, v.Bool()), nil", New: "\t\treturn append(l, ival.(bool)), nil", Expect: "assert-bool#"})
+}
